@@ -467,6 +467,8 @@ type symEnv struct {
 	wraps []string
 	// havocLoops: loops are over-approximated (variables assigned in them become unknown)
 	havocLoops bool
+	// namedResults: the named results of the function being interpreted (innermost last)
+	namedResults [][]*ast.Ident
 	// zeroTrip: every loop is taken to run zero times (the evaluation is for inputs that make it so)
 	zeroTrip bool
 	onLoop     func(st *symState, loop ast.Stmt)
@@ -1103,7 +1105,10 @@ func (e *symEnv) inlineCall(st *symState, call *ast.CallExpr) []*symState {
 	savedPaths, savedLoop := e.paths, e.loopBody
 	e.paths, e.loopBody = nil, false
 	e.inlineStack = append(e.inlineStack, fd)
+	e.namedResults = append(e.namedResults, namedResultsOf(fd.Type))
+	e.zeroNamedResults(st2, fd.Type)
 	rest := e.execList([]*symState{st2}, fd.Body.List)
+	e.namedResults = e.namedResults[:len(e.namedResults)-1]
 	e.inlineStack = e.inlineStack[:len(e.inlineStack)-1]
 	sub := e.paths
 	e.paths, e.loopBody = savedPaths, savedLoop
@@ -1262,6 +1267,12 @@ func (e *symEnv) execCore(st *symState, s ast.Stmt) []*symState {
 		var rets []Val
 		for _, r := range s.Results {
 			rets = append(rets, e.eval(st, r))
+		}
+		if len(s.Results) == 0 && len(e.namedResults) > 0 {
+			// a bare return hands back the named results
+			for _, id := range e.namedResults[len(e.namedResults)-1] {
+				rets = append(rets, e.eval(st, id))
+			}
 		}
 		e.finish(st, "return", rets, s.Pos())
 		return nil
@@ -1451,6 +1462,14 @@ func symRun(env *symEnv, body *ast.BlockStmt) []symPath {
 	}
 	env.paths = nil
 	env.maxPaths = 4096
+	if ft := funcTypeOfBody(env.info, body); ft != nil {
+		env.namedResults = append(env.namedResults, namedResultsOf(ft))
+		env.zeroNamedResults(st, ft)
+		defer func() { env.namedResults = env.namedResults[:len(env.namedResults)-1] }()
+	} else {
+		env.namedResults = append(env.namedResults, nil)
+		defer func() { env.namedResults = env.namedResults[:len(env.namedResults)-1] }()
+	}
 	rest := env.execList([]*symState{st}, body.List)
 	for _, r := range rest {
 		env.finish(r, "fall", nil, body.End())
@@ -1471,6 +1490,58 @@ type specRow struct {
 
 // conform checks the path table against the spec.  It returns violations as text.
 func conform(env *symEnv, paths []symPath, spec []specRow) (viol []string, undec []string) {
+	// symbols the specification and the binding of the rule know; a result that is computed from
+	// other opaque values (the answer of a library function, a table lookup) cannot be compared
+	known := map[string]bool{}
+	for _, a := range env.base {
+		for sname := range a.C {
+			known[sname] = true
+		}
+	}
+	for _, row := range spec {
+		for sname := range symbolsOfF(row.When) {
+			known[sname] = true
+		}
+		for _, l := range row.Ret {
+			if l != nil {
+				for sname := range l.C {
+					known[sname] = true
+				}
+			}
+		}
+		for _, f := range row.RetB {
+			for sname := range symbolsOfF(f) {
+				known[sname] = true
+			}
+		}
+		for k, l := range row.State {
+			known[k] = true
+			if l != nil {
+				for sname := range l.C {
+					known[sname] = true
+				}
+			}
+		}
+	}
+	foreignIn := func(names map[string]bool) string {
+		var out []string
+		for sname := range names {
+			if !known[sname] && (strings.HasPrefix(sname, "val:") || strings.HasPrefix(sname, "pred:")) {
+				out = append(out, sname)
+			}
+		}
+		sort.Strings(out)
+		return strings.Join(out, ", ")
+	}
+	linNames := func(l *Lin) map[string]bool {
+		m := map[string]bool{}
+		if l != nil {
+			for sname := range l.C {
+				m[sname] = true
+			}
+		}
+		return m
+	}
 	for _, p := range paths {
 		for _, row := range spec {
 			for _, cb := range dnf(row.When) {
@@ -1501,12 +1572,18 @@ func conform(env *symEnv, paths []symPath, spec []specRow) (viol []string, undec
 					if want == nil {
 						continue
 					}
+					if i < len(p.Rets) && p.Rets[i].Lin == nil && p.Rets[i].B == nil {
+						undec = append(undec, foreignPrefix+fmt.Sprintf("%s result #%d is %s, a value the rule does not interpret", where, i, p.Rets[i].String()))
+						continue
+					}
 					if i >= len(p.Rets) || p.Rets[i].Lin == nil {
 						viol = append(viol, fmt.Sprintf("%s result #%d is not an integer form", where, i))
 						continue
 					}
 					if s, d := satF(all, fCmp(token.NEQ, p.Rets[i].Lin, want)); s || !d {
-						if !d {
+						if fs := foreignIn(linNames(p.Rets[i].Lin)); fs != "" {
+							undec = append(undec, foreignPrefix+fmt.Sprintf("%s the result is computed from %s, which the rule cannot relate to the specification", where, fs))
+						} else if !d {
 							undec = append(undec, fmt.Sprintf("%s cannot compare result %s with %s", where, p.Rets[i].Lin, want))
 						} else {
 							viol = append(viol, fmt.Sprintf("%s the code returns %s, the spec requires %s", where, p.Rets[i].Lin, want))
@@ -1517,6 +1594,10 @@ func conform(env *symEnv, paths []symPath, spec []specRow) (viol []string, undec
 					if want == nil {
 						continue
 					}
+					if i < len(p.Rets) && p.Rets[i].Lin == nil && p.Rets[i].B == nil {
+						undec = append(undec, foreignPrefix+fmt.Sprintf("%s result #%d is %s, a value the rule does not interpret", where, i, p.Rets[i].String()))
+						continue
+					}
 					if i >= len(p.Rets) || p.Rets[i].B == nil {
 						viol = append(viol, fmt.Sprintf("%s result #%d is not a boolean form", where, i))
 						continue
@@ -1524,7 +1605,9 @@ func conform(env *symEnv, paths []symPath, spec []specRow) (viol []string, undec
 					got := p.Rets[i].B
 					diff := fOrOf(fAndOf(got, fNotOf(want)), fAndOf(fNotOf(got), want))
 					if s, d := satF(all, diff); s || !d {
-						if !d {
+						if fs := foreignIn(symbolsOfF(got)); fs != "" {
+							undec = append(undec, foreignPrefix+fmt.Sprintf("%s the result is computed from %s, which the rule cannot relate to the specification", where, fs))
+						} else if !d {
 							undec = append(undec, fmt.Sprintf("%s cannot compare boolean result", where))
 						} else {
 							viol = append(viol, fmt.Sprintf("%s the code returns %s, the spec requires %s", where, got, want))
@@ -1760,4 +1843,91 @@ func (e *symEnv) isRecvRooted(x ast.Expr) bool {
 		}
 	}
 	return false
+}
+
+// foreignPrefix marks an undecided comparison whose only obstacle is a value the rule has no
+// binding for (not-evaluated, never a failure).
+const foreignPrefix = "foreign: "
+
+func onlyForeign(undec []string) bool {
+	if len(undec) == 0 {
+		return false
+	}
+	for _, u := range undec {
+		if !strings.HasPrefix(u, foreignPrefix) {
+			return false
+		}
+	}
+	return true
+}
+
+// symbolsOfF: the symbol names occurring in a formula.
+func symbolsOfF(f *F) map[string]bool {
+	out := map[string]bool{}
+	var walk func(f *F)
+	walk = func(f *F) {
+		if f == nil {
+			return
+		}
+		if f.op == fAtom && f.a != nil {
+			for sname := range f.a.C {
+				out[sname] = true
+			}
+		}
+		for _, x := range f.xs {
+			walk(x)
+		}
+	}
+	walk(f)
+	return out
+}
+
+func namedResultsOf(ft *ast.FuncType) []*ast.Ident {
+	var out []*ast.Ident
+	if ft == nil || ft.Results == nil {
+		return nil
+	}
+	for _, f := range ft.Results.List {
+		out = append(out, f.Names...)
+	}
+	return out
+}
+
+// zeroNamedResults: named results start with the zero value of their type.
+func (e *symEnv) zeroNamedResults(st *symState, ft *ast.FuncType) {
+	for _, n := range namedResultsOf(ft) {
+		o := e.info.Defs[n]
+		if o == nil || n.Name == "_" {
+			continue
+		}
+		switch {
+		case isNumericOrString(o.Type()) && isIntegerType(o.Type()):
+			e.assign(st, n, Val{Lin: linConst(0)})
+		case isBoolType(o.Type()):
+			e.assign(st, n, Val{B: FFalse})
+		default:
+			e.assign(st, n, Val{Opaque: "zero"})
+		}
+	}
+}
+
+// funcTypeOfBody: the type of the function (declaration or literal) whose body this is.
+func funcTypeOfBody(info *types.Info, body *ast.BlockStmt) *ast.FuncType {
+	if info == nil || body == nil {
+		return nil
+	}
+	var best *ast.FuncType
+	for node, sc := range info.Scopes {
+		ft, ok := node.(*ast.FuncType)
+		if !ok || sc == nil {
+			continue
+		}
+		// the scope of a function type spans its parameters and its body
+		if sc.Pos() <= body.Pos() && body.End() <= sc.End() && sc.End() == body.End() {
+			if best == nil || ft.Pos() > best.Pos() {
+				best = ft
+			}
+		}
+	}
+	return best
 }
